@@ -199,6 +199,8 @@ func installNatives(it *Interp) {
 		return nil
 	}
 	n["(*sync.WaitGroup).Wait"] = func(it *Interp, args []Value) []Value { return nil }
+	n["(*sync.WaitGroup).Add"] = func(it *Interp, args []Value) []Value { return nil }
+	n["(*sync.WaitGroup).Done"] = func(it *Interp, args []Value) []Value { return nil }
 	n["text/template.New"] = func(it *Interp, args []Value) []Value { return []Value{&Ext{"template"}} }
 	n["(*text/template.Template).Funcs"] = func(it *Interp, args []Value) []Value { return []Value{&Ext{"template"}} }
 	n["(*text/template.Template).Parse"] = func(it *Interp, args []Value) []Value { return []Value{&Ext{"template"}, Nil{}} }
